@@ -148,7 +148,9 @@ fn write_reply(s: &mut TcpStream, r: &Reply, port: u16) {
         503 => "Service Unavailable",
         _ => "Status",
     };
-    let mut head = format!("HTTP/1.1 {} {}\r\n", r.status, reason).into_bytes();
+    // framing "close10": an HTTP/1.0 reply (old proxies, simple servers), body delimited by the close
+    let version = if r.framing == "close10" { "HTTP/1.0" } else { "HTTP/1.1" };
+    let mut head = format!("{} {} {}\r\n", version, r.status, reason).into_bytes();
     if let Some(ct) = &r.ct {
         // line feeds separate the values of SEVERAL Content-Type headers
         for one in ct.split(|c| *c == b'\n') {
@@ -186,7 +188,7 @@ fn write_reply(s: &mut TcpStream, r: &Reply, port: u16) {
             }
             let _ = s.write_all(b"0\r\n\r\n");
         }
-        "close" => {
+        "close" | "close10" => {
             head.extend_from_slice(b"Connection: close\r\n\r\n");
             let _ = s.write_all(&head);
             let _ = s.write_all(&r.body);
